@@ -261,6 +261,17 @@ func (idx *PQIndex) Train(vectors []VectorNode) error {
 // Returns:
 //   - error: Returns error if not trained or dimension mismatch
 func (idx *PQIndex) Add(vector VectorNode) error {
+	// Re-adding a soft-deleted ID is an update (remove + add): compact first so
+	// that the stale entry and its tombstone cannot shadow the new vector.
+	idx.mu.RLock()
+	stale := idx.deletedNodes.Contains(vector.ID())
+	idx.mu.RUnlock()
+	if stale {
+		if err := idx.Flush(); err != nil {
+			return err
+		}
+	}
+
 	idx.mu.Lock()
 	defer idx.mu.Unlock()
 
